@@ -621,7 +621,7 @@ func gen(rng *h.Rng, tier string, emit func(string)) {
 	thorough := tier == "thorough"
 	variants := 3
 	if thorough {
-		variants = 6
+		variants = 8
 	}
 	// ---- (1) every dependency graph on up to 4 reports
 	emitShape := func(part []int, dmask []int, b int, v int) {
@@ -672,7 +672,7 @@ func gen(rng *h.Rng, tier string, emit func(string)) {
 	// ---- (2) random larger graphs
 	nlarge := 3000
 	if thorough {
-		nlarge = 40000
+		nlarge = 100000
 	}
 	for c := 0; c < nlarge; c++ {
 		n := 5 + rng.Intn(36)
@@ -710,9 +710,9 @@ func gen(rng *h.Rng, tier string, emit func(string)) {
 		emit(blockCase(rng, st, nodes, rng.Intn(3), pickMode(rng), E, []string{"e2", "e3"}, "large"))
 	}
 	// ---- (3) multi-block histories
-	nhist := 3000
+	nhist := 4000
 	if thorough {
-		nhist = 40000
+		nhist = 150000
 	}
 	for c := 0; c < nhist; c++ {
 		E := []int{2, 3, 4, 6, 12, 12}[rng.Intn(6)]
